@@ -46,6 +46,9 @@ def run(chk):
     bfsd = prog.method(conn, "yield_bfsd")
     chk.require(bfs and bfsd, "BFS generators vanished")
     chk.analysed(bfs, bfsd)
+    from ..canon import dissolve_pure_temps
+
+    bfs, bfsd = dissolve_pure_temps(bfs), dissolve_pure_temps(bfsd)  # `next_dist = dist + 1` is not a structural difference
     for f, with_dist in ((bfs, False), (bfsd, True)):
         chk.call(bfs_rules, chk, f, with_dist)
     chk.call(r4_siblings, chk, bfs, bfsd)
@@ -172,7 +175,16 @@ def r5_matcher(chk, conn):
     chk.decide(g1 == "self.to_nxgraph()" and g2 == f"{p}.to_nxgraph()", "C15.R5", f"{m.key}:graph-roles", m.where(gm[0]), f"GraphMatcher(G1 = self graph, G2 = {p} graph)",
                f"GraphMatcher is given G1 = {g1}, G2 = {g2}: the pattern must be G2 (it is embedded into G1), otherwise large patterns match small molecules and the wildcard test is on the wrong side")
     kn, ke = kwarg(gm[0], "node_match"), kwarg(gm[0], "edge_match")
-    chk.decide(kn is not None and ke is not None and norm(kn) == "node_match" and norm(ke) == "edge_match", "C15.R5", f"{m.key}:matchers-passed", m.where(gm[0]), "node_match and edge_match are handed to the matcher",
+
+    def passes(v, pname):
+        """the keyword is the caller's matcher, or the caller's matcher with the class's own one as the fallback"""
+        if v is None:
+            return False
+        if norm(v) == pname:
+            return True
+        return isinstance(v, ast.BoolOp) and isinstance(v.op, ast.Or) and len(v.values) == 2 and norm(v.values[0]) == pname and norm(v.values[1]) == f"self._{pname}"
+
+    chk.decide(passes(kn, "node_match") and passes(ke, "edge_match"), "C15.R5", f"{m.key}:matchers-passed", m.where(gm[0]), "node_match and edge_match are handed to the matcher",
                "node_match / edge_match are not handed to the matcher: elements and bond types are ignored")
     it = [c for c in walk_no_nested(m.node) if isinstance(c, ast.Call) and isinstance(c.func, ast.Attribute) and c.func.attr.endswith("_iter")]
     chk.decide(len(it) == 1 and it[0].func.attr == "subgraph_isomorphisms_iter", "C15.R5", f"{m.key}:induced-iterator", m.where(it[0] if it else None), "subgraph_isomorphisms_iter (induced)",
@@ -184,9 +196,28 @@ def r5_matcher(chk, conn):
         k, v = [norm(x) for x in dc.generators[0].target.elts]
         ok = norm(dc.key) == v and norm(dc.value) == k and norm(dc.generators[0].iter).endswith(".items()")
     chk.decide(ok, "C15.R5", f"{m.key}:mapping-inverted", m.where(ys[0] if ys else None), "yields {pattern atom: target atom}", "the yielded mapping is not the inverse (pattern -> target) of the matcher's {target: pattern}")
-    src = norm(gs.node)
     pp = gs.params()[1]
-    ok = f"for x in {pp}.atoms" in src and "atom_idx[mapping[x]]" in src and "enumerate(self.atoms)" in src
+    from ..canon import Env
+
+    genv = Env(gs.node)
+    ok = False
+    gy = [e for e in walk_no_nested(gs.node) if isinstance(e, ast.Yield)]
+    gl = [l for l in walk_no_nested(gs.node) if isinstance(l, ast.For) and gy and any(x is gy[0] for x in ast.walk(l))]
+    if len(gy) == 1 and len(gl) == 1 and isinstance(gy[0].value, ast.ListComp) and len(gy[0].value.generators) == 1 and isinstance(gl[0].target, ast.Name):
+        lc = gy[0].value
+        g0 = lc.generators[0]
+        mvar = gl[0].target.id
+        it = genv.expand(gl[0].iter)
+        elt = lc.elt
+        # [IDX[M[x]] for x in pattern.atoms] with M the mapping of this iteration and IDX = {atom: index in self.atoms}
+        shape = (isinstance(g0.target, ast.Name) and norm(g0.iter) == f"{pp}.atoms" and not g0.ifs and isinstance(elt, ast.Subscript) and isinstance(elt.slice, ast.Subscript)
+                 and norm(elt.slice.value) == mvar and norm(elt.slice.slice) == g0.target.id and isinstance(elt.value, ast.Name))
+        if shape:
+            idx = genv.single(elt.value.id)
+            okidx = isinstance(idx, ast.DictComp) and len(idx.generators) == 1 and norm(idx.generators[0].iter) == "enumerate(self.atoms)" \
+                and isinstance(idx.generators[0].target, ast.Tuple) and len(idx.generators[0].target.elts) == 2 \
+                and norm(idx.key) == norm(idx.generators[0].target.elts[1]) and norm(idx.value) == norm(idx.generators[0].target.elts[0])
+            ok = okidx and isinstance(it, ast.Call) and norm(it.func) == "self.match" and it.args and norm(it.args[0]) == pp
     chk.decide(ok, "C15.R5", f"{gs.key}:indexed-by-pattern-atoms", gs.where(), "[index in self of mapping[x] for x in pattern.atoms]", "get_substr_indices does not list, in pattern order, the indices of the matched atoms in self")
     # the wildcard test is on the pattern side (second argument = G2 node attributes)
     a1, a2 = nm.params()[:2]
@@ -243,13 +274,32 @@ def r7_ring(chk, conn):
     prog = chk.prog
     f = prog.method(conn, "is_bond_in_ring")
     chk.analysed(f)
+    from ..canon import Env, search_loops
+
+    f = search_loops(f)  # `return any(a in S for a in bfs)` reads as the search loop it abbreviates
     b = f.params()[1]
-    src = norm(f.node)
-    ok = (f"for a in self.connected_atoms({b}.a1) if a != {b}.a2" in src and f"self.yield_bfs({b}.a1, {b}.a2)" in src and "if a in connections" in src and "return True" in src and src.rstrip().endswith("return False")) or \
-         (f"for a in self.connected_atoms({b}.a2) if a != {b}.a1" in src and f"self.yield_bfs({b}.a2, {b}.a1)" in src and "if a in connections" in src)
+    env = Env(f.node)
     rets = [r for r in walk_no_nested(f.node) if isinstance(r, ast.Return)]
     vals = sorted(norm(r.value) for r in rets if r.value is not None)
-    ok = ok and vals == ["False", "True"]
+    ok = False
+    loops = [l for l in f.node.body if isinstance(l, ast.For)]
+    if len(loops) == 1 and vals == ["False", "True"] and isinstance(f.node.body[-1], ast.Return) and norm(f.node.body[-1].value) == "False" and isinstance(loops[0].target, ast.Name):
+        l = loops[0]
+        it = env.expand(l.iter)
+        x = l.target.id
+        tests = [g for g in l.body if isinstance(g, ast.If)]
+        if len(l.body) == 1 and len(tests) == 1 and not tests[0].orelse and len(tests[0].body) == 1 and isinstance(tests[0].body[0], ast.Return) and norm(tests[0].body[0].value) == "True" \
+                and isinstance(it, ast.Call) and norm(it.func) == "self.yield_bfs" and len(it.args) == 2:
+            A, B = norm(it.args[0]), norm(it.args[1])
+            t = tests[0].test
+            if isinstance(t, ast.Compare) and len(t.ops) == 1 and isinstance(t.ops[0], ast.In) and norm(t.left) == x:
+                S = env.expand(t.comparators[0])
+                if isinstance(S, (ast.SetComp, ast.ListComp)) and len(S.generators) == 1 and isinstance(S.generators[0].target, ast.Name):
+                    g0 = S.generators[0]
+                    n = g0.target.id
+                    filt = [norm(c) for c in g0.ifs]
+                    ok = norm(S.elt) == n and norm(g0.iter) == f"self.connected_atoms({A})" and filt in ([f"{n} != {B}"], [f"{n} is not {B}"], [f"{B} != {n}"]) \
+                        and {A, B} == {f"{b}.a1", f"{b}.a2"}
     chk.decide(ok, "C15.R7", f"{f.key}:bridge-test", f.where(), "bond a1-a2 is in a ring iff the BFS from a1 through a2 reaches another neighbour of a1",
                f"is_bond_in_ring no longer decides only by searching, from a1 through a2, for another neighbour of a1 (returns: {vals}): a shortcut answers without looking at the graph, "
                "so bridges are reported as ring bonds or ring bonds as bridges")
